@@ -76,7 +76,9 @@ struct Rec {
 	const Sched *s;
 	std::vector<Entry> log;
 	bool reached_nondefault = false;
+	size_t nondefault = 0;
 };
+static size_t g_nondefault;
 static int userfunc(json_object *jso, int flags, json_object *parent, const char *key, size_t *idx, void *arg)
 {
 	Rec *r = (Rec *)arg;
@@ -92,7 +94,10 @@ static int userfunc(json_object *jso, int flags, json_object *parent, const char
 	r->log.push_back(e);
 	int c = r->s->at(n);
 	if (c != JSON_C_VISIT_RETURN_CONTINUE)
+	{
 		r->reached_nondefault = true;
+		r->nondefault++;
+	}
 	return c;
 }
 // reference traversal (json_visit.h); returns CONTINUE/SKIP/POP/STOP/ERROR
@@ -167,6 +172,7 @@ static void compare(Ctx &ctx, const Val &tree, const Sched &s, bool &reached)
 	// the library prints a diagnostic on stderr for invalid codes; keep the harness quiet
 	int rc = json_c_visit(j, 0, userfunc, &got);
 	reached = got.reached_nondefault;
+	g_nondefault = got.nondefault;
 	std::string sd;
 	for (auto &kv : s.codes)
 		sd += "call " + str(kv.first) + "->" + cname(kv.second) + (strcmp(cname(kv.second), "INVALID") == 0 ? "(" + str(kv.second) + ")" : "") + " ";
@@ -268,6 +274,53 @@ void run_case(Choices &c, Ctx &ctx)
 			}
 		}
 		ctx.label("deep_spine");
+	}
+	if (ctx.mode == "gen" && c.coin(3))
+	{
+		// a wide tree and a schedule with more than a thousand SKIP/POP returns: whatever the traversal keeps per
+		// call (a depth counter, a stack) has to be released on every way out, not only on CONTINUE
+		size_t W = (size_t)c.range(1100, 2600);
+		int shape = (int)c.pickn(4);
+		Val root = c.coin(50) ? Val::arr() : Val::obj();
+		for (size_t i = 0; i < W; i++)
+		{
+			Val e;
+			switch (shape == 3 ? (int)(i % 3) : shape)
+			{
+			case 0: e = Val::i64((int64_t)i); break;
+			case 1: e = Val::arr(); e.a.push_back(Val::i64(1)); e.a.push_back(Val::i64(2)); break;
+			default: e = Val::obj(); e.set("a", Val::i64(1)); e.set("b", Val::arr()); break;
+			}
+			if (root.k == Val::Arr)
+				root.a.push_back(e);
+			else
+				root.set("m" + str(i), e);
+		}
+		if (c.coin(50))
+		{
+			Val outer = Val::arr();
+			outer.a.push_back(root);
+			outer.a.push_back(tree);
+			root = outer;
+		}
+		// run the reference once with CONTINUE everywhere to learn which call numbers are first visits of the
+		// small containers / leaves below the wide node, then deviate there
+		Sched s;
+		size_t est = root.count_nodes() * 2;
+		size_t period = 1 + c.pickn(3), phase = c.pickn(3);
+		int code = c.coin(70) ? JSON_C_VISIT_RETURN_SKIP : JSON_C_VISIT_RETURN_POP;
+		for (size_t n = 2 + phase; n < est; n += period)
+			s.codes[n] = code;
+		if (c.coin(30))
+			s.codes[est > 10 ? est - 1 - c.pickn(5) : 0] = gen_code(c);
+		bool reached = false;
+		compare(ctx, root, s, reached);
+		ctx.label("periodic_schedule");
+		if (g_nondefault >= 1100)
+			ctx.label("over_1100_skip_or_pop_returns");
+		ctx.nontrivial(hash_u64(W * 64 + period * 16 + phase * 4 + (size_t)shape, hash_u64((uint64_t)code)));
+		leak.check(ctx);
+		return;
 	}
 	size_t ncalls_est = tree.count_nodes() * 2;
 	if (ctx.mode == "single")
